@@ -348,6 +348,14 @@ func runSets(c *ctx, mk func(vals []int, nilSet bool) setAPI) {
 	}
 
 	nOps := tp.Range(1, 30)
+	// Sparse observation: objects are not queried after every step, so that
+	// whatever an implementation defers until the next query of an object
+	// (lazy sorting, cached views) is still pending when that object is used
+	// in another role, e.g. as the argument of Equal or the origin of Clone.
+	sparse := tp.Bool(1, 3)
+	if sparse {
+		rc.Stats.Probe("sparse-observation")
+	}
 	for i := 0; i < nOps; i++ {
 		l := objs[tp.Choose(len(objs))]
 		isNil := l.obj.isNil()
@@ -441,7 +449,15 @@ func runSets(c *ctx, mk func(vals []int, nilSet bool) setAPI) {
 				return
 			}
 		}
-		// Every live object against its own model after every step.
+		// Every live object against its own model after every step (sparse
+		// observation: one drawn object now and then, all at the end).
+		if sparse && i != nOps-1 {
+			if tp.Bool(1, 5) && !checkSet(c, objs[tp.Choose(len(objs))]) {
+				return
+			}
+
+			continue
+		}
 		for _, x := range objs {
 			if !checkSet(c, x) {
 				return
